@@ -111,13 +111,26 @@ pub fn run(args: &Args) -> i32 {
   };
   let mut slice = Slice::Wf;
   let mut map_faulty = false;
-  let s = EnumCfg::structural;
-  // Base plan: structural enumeration with exact checkers.
+  // Base plan. `s`: structural enumeration with exact resource checkers and two output checkers (exact and pie's
+  // AlwaysConsistent: "require the generator, ignore its output, read the file" is the idiomatic pie pattern and the
+  // only way a reader depends on a writer through the resource alone). `rich`: small programs over the full
+  // C01-safe alphabet (coarse output/read checkers, both write routes; write dependencies stay exact, DESIGN 3.3).
+  let s = |n: usize, r: u8, k: usize| { let mut e = EnumCfg::structural(n, r, k); e.ocs = vec![OC::Equals, OC::PieAlways]; e };
+  let rich = |n: usize, r: u8, k: usize| {
+    let mut e = EnumCfg::structural(n, r, k);
+    e.ocs = vec![OC::Equals, OC::IsZero, OC::PieAlways];
+    e.read_rcs = vec![RC::Exact, RC::Exists, RC::Always];
+    e.write_decl = true;
+    e
+  };
   let mut groups: Vec<Group> = if quick {
-    vec![Group { enums: vec![s(2, 2, 3)], depth: 6, shapes: true }, Group { enums: vec![s(3, 2, 2)], depth: 4, shapes: false }]
+    vec![
+      Group { enums: vec![s(2, 2, 3)], depth: 5, shapes: true },
+      Group { enums: vec![s(3, 2, 2), rich(2, 2, 2)], depth: 4, shapes: false },
+    ]
   } else {
     vec![
-      Group { enums: vec![s(2, 2, 4)], depth: 7, shapes: true },
+      Group { enums: vec![s(2, 2, 4), rich(2, 2, 3)], depth: 6, shapes: true },
       Group { enums: vec![s(3, 2, 3), s(3, 3, 3)], depth: 5, shapes: false },
       Group { enums: vec![s(4, 2, 3)], depth: 4, shapes: false },
     ]
@@ -127,30 +140,29 @@ pub fn run(args: &Args) -> i32 {
     Prop::C01 | Prop::C02 => {}
     Prop::C03 | Prop::C04 => {
       cfg.probe = prop == Prop::C03; cfg.bu_over_report = true; cfg.bu_then = true; cfg.bu_pre = !quick; cfg.max_roots = if quick { 1 } else { 2 };
-      if quick { groups[0].depth = 5; }
     }
-    Prop::C05 | Prop::C06 | Prop::C07 | Prop::C20 => { slice = Slice::WfOrViol; if quick { groups[0].depth = 5; } else { groups[0].depth = 6; } }
+    Prop::C05 | Prop::C06 | Prop::C07 | Prop::C20 => { slice = Slice::WfOrViol; }
     Prop::C08 => {
       // plus programs that declare several dependencies with different checkers on one target (recorded finding F2)
       slice = Slice::WfOrMulti;
-      let mut e = s(if quick { 1 } else { 2 }, 1, if quick { 2 } else { 3 });
+      let mut e = EnumCfg::structural(if quick { 1 } else { 2 }, 1, if quick { 2 } else { 3 });
       e.read_rcs = vec![RC::Exact, RC::Exists];
       e.ocs = vec![OC::Equals, OC::IsZero];
       groups.push(Group { enums: vec![e], depth: if quick { 5 } else { 6 }, shapes: false });
     }
     Prop::C09 => {
-      let mut e = s(2, 2, if quick { 2 } else { 3 });
+      let mut e = EnumCfg::structural(2, 2, if quick { 2 } else { 3 });
       e.ocs = vec![OC::Equals, OC::IsZero, OC::Always, OC::PieEquals];
       e.read_rcs = vec![RC::Exact, RC::Exists, RC::Always];
       e.write_rcs = vec![RC::Exact, RC::Exists, RC::Always];
       e.write_decl = true;
       groups.push(Group { enums: vec![e], depth: if quick { 5 } else { 6 }, shapes: false });
     }
-    Prop::C18 => { cfg.set_fail = true; map_faulty = true; if quick { groups[0].depth = 5; } else { groups[0].depth = 6; } }
+    Prop::C18 => { cfg.set_fail = true; map_faulty = true; }
     Prop::C19 => {
       slice = Slice::WfOrPanic;
       cfg.crashes = if quick { 1 } else { 2 };
-      let mut e = s(2, 1, if quick { 3 } else { 4 });
+      let mut e = EnumCfg::structural(2, 1, if quick { 3 } else { 4 });
       e.panic_op = true;
       groups = if quick {
         vec![Group { enums: vec![s(2, 2, 3), e], depth: 4, shapes: true }]
@@ -158,7 +170,7 @@ pub fn run(args: &Args) -> i32 {
         vec![Group { enums: vec![s(2, 2, 3), e], depth: 5, shapes: true }, Group { enums: vec![s(3, 2, 3)], depth: 4, shapes: false }]
       };
     }
-    Prop::C16 => { cfg.collect_digests = true; slice = Slice::WfOrViol; cfg.bu_then = true; if quick { groups[0].depth = 5; } else { groups[0].depth = 6; } }
+    Prop::C16 => { cfg.collect_digests = true; slice = Slice::WfOrViol; cfg.bu_then = true; if quick { groups[0].depth = 4; } }
     Prop::C17 => { slice = Slice::WfOrViol; cfg.bu_then = true; crate::runner::set_helper_mode_global(true); if quick { groups[0].depth = 4; groups[1].depth = 3; } else { groups[0].depth = 5; groups[1].depth = 4; } }
     _ => {}
   }
